@@ -648,7 +648,17 @@ impl<K: KeyT, V: ValT> MapRunner<K, V> {
                 let a: Vec<_> = r.iter().map(|(k, e)| (*k, e.2)).collect();
                 let b: Vec<_> = o.iter().map(|(k, e)| (*k, e.2)).collect();
                 expect = Some((a == b).to_string());
+                // `==` on ONE object, and with values whose `==` is not reflexive (NaN): equal exactly when
+                // every value equals itself
+                let fm: hashbrown::HashMap<u64, f64> =
+                    r.iter().map(|(k, e)| (*k, if e.2 % 3 == 0 { f64::NAN } else { e.2 as f64 })).collect();
+                let want = fm.values().all(|v| v == v);
+                let fc = fm.clone();
+                if (fm == fm) != want || (fm == fc) != want || (fc == fm) != want {
+                    return Some("== with non-reflexive values (same object / clone) is not `all values equal`".into());
+                }
             }
+            ("self_eq", 0) => expect = Some("true".into()),
             _ => match crate::entry_ops::ref_entry(r, o, name, a, ret, &actual) {
                 Ok(e) => expect = e,
                 Err(why) => return Some(why),
@@ -1027,6 +1037,10 @@ impl<K: KeyT, V: ValT> MapRunner<K, V> {
                 "()".into()
             }
             ("eq", 0) => (*m == *other).to_string(),
+            ("self_eq", 0) => {
+                let s: &M<K, V> = &*m;
+                (*s == *s).to_string()
+            }
             ("nop", 0) => "()".into(),
             _ => crate::entry_ops::run_entry(m, other, name, a),
         }
@@ -1066,7 +1080,7 @@ impl<K: KeyT, V: ValT> Runner for MapRunner<K, V> {
         }
         {
             let i = if tgt == "a" { 0 } else { 1 };
-            if !matches!(name, "insert" | "get" | "getmut" | "contains" | "remove" | "remove_entry" | "nop" | "iter" | "eq") {
+            if !matches!(name, "insert" | "get" | "getmut" | "contains" | "remove" | "remove_entry" | "nop" | "iter" | "eq" | "self_eq") {
                 self.churn_only[i] = false;
                 if matches!(name, "clone_to_other") {
                     self.churn_only[1 - i] = false;
